@@ -39,6 +39,7 @@ func runFill(m *model.Model, s *ob.Set) {
 		}
 		var loops []loopT
 		seenH := map[*ssa.BasicBlock]bool{}
+		hdrPhi := map[*ssa.BasicBlock]*ssa.Phi{}
 		for _, b := range fn.Blocks {
 			if !live[b.Index] {
 				continue
@@ -57,13 +58,15 @@ func runFill(m *model.Model, s *ob.Set) {
 					continue
 				}
 				h := ph.Block()
-				if seenH[h] || !blockReaches(h, h) || !m.Dominates(h, b) || !blockReaches(b, h) {
+				if seenH[h] || !blockReaches(h, h) || !m.Dominates(h, b) {
 					continue
 				}
 				// induction: starts at 0, one edge is φ+1
 				zero, step := false, false
 				for _, e := range ph.Edges {
-					if k, ok := model.ConstInt(e); ok && k == 0 {
+					// (a start above 0 where the words below were stored in front of the loop:
+					// z[0], c = …; for i := 1; …)
+					if k, ok := model.ConstInt(e); ok && k >= 0 && k <= 4 {
 						zero = true
 					}
 					if bo, ok := e.(*ssa.BinOp); ok && bo.Op == token.ADD && bo.X == ssa.Value(ph) {
@@ -99,6 +102,7 @@ func runFill(m *model.Model, s *ob.Set) {
 				}
 				seenH[h] = true
 				loops = append(loops, loopT{h, st, ia.X})
+				hdrPhi[h] = ph
 			}
 		}
 		for li, l := range loops {
@@ -135,8 +139,31 @@ func runFill(m *model.Model, s *ob.Set) {
 				}
 			}
 			// the store happens on every iteration: its block dominates every latch
+			// (any of the stores at the counter will do: `if s < base { z[i] = s; …; return }; z[i] = 0`)
+			var stores []*ssa.Store
+			for _, lb := range fn.Blocks {
+				if !inLoop(lb) {
+					continue
+				}
+				for _, in := range lb.Instrs {
+					if st, ok := in.(*ssa.Store); ok {
+						if ia, ok := st.Addr.(*ssa.IndexAddr); ok && ia.Index == ssa.Value(hdrPhi[h]) && sameSliceExpr(ia.X, l.sl) {
+							stores = append(stores, st)
+						}
+					}
+				}
+			}
 			for _, p := range h.Preds {
-				if inLoop(p) && !m.Dominates(l.store.Block(), p) {
+				if !inLoop(p) {
+					continue
+				}
+				covered := m.Dominates(l.store.Block(), p)
+				for _, st := range stores {
+					if m.Dominates(st.Block(), p) {
+						covered = true
+					}
+				}
+				if !covered {
 					bad = append(bad, fmt.Sprintf("%s: an iteration can skip the store at %s", m.InstrPos(l.store), m.InstrPos(l.store)))
 				}
 			}
